@@ -45,6 +45,18 @@ package object
 // lemma (by induction on p; validated by bounded enumeration in /verif/replay): a path denotes at most one node
 //@ axiom [denotes-functional] forall cs []*Node, p string, n *Node, m *Node {denotes(cs, p, n), denotes(cs, p, m)} :: uniqueTree(cs) && denotes(cs, p, n) && denotes(cs, p, m) ==> n == m
 
+// flattening a node to the paths beneath it: total on well-formed trees (the recursion descends)
+//@ func Node.GetPaths
+//@   returns ps
+//@   pure
+//@   requires treeWF(n.Children)
+
+//@ func Node.getPaths
+//@   returns ps
+//@   pure
+//@   requires treeWF(n.Children)
+//@   decreases height(n.Children)
+
 //@ func GetNode
 //@   returns n, found
 //@   pure
@@ -54,6 +66,7 @@ package object
 //@   ensures [complete] {C07,C09} !found && uniqueTree(children) ==> forall m *Node :: !denotes(children, path, m)
 //@   ensures [nil] !found ==> n == nil
 //@   ensures [hash] found ==> len(n.Hash) >= 20
+//@   ensures [subtree-wf] found ==> treeWF(n.Children)
 //@   loop 0:
 //@     invariant forall k int :: 0 <= k && k < it ==> children[k].Name != searchName
 
